@@ -358,6 +358,8 @@ def run(ctx):
 
 
 def replay(ctx, scen):
+    if scen['family'] not in {F.name for F in FAMILIES}:
+        return core.RERUN            # reported outside a judged family: replay by re-running the check
     fam = {F.name: F for F in FAMILIES}[scen['family']]()
     recs, bad = core.run_family(ctx, fam, inputs=[scen['inputs']])
     return not bad
